@@ -36,11 +36,12 @@ type c11Scenario struct {
 
 func init() {
 	register(&PropDef{
-		ID:   "C11",
-		Rule: "scenario = a history of 2-5 connections on one client (Connect, then Resume/Connect after each loss): the first enables SM (server grants an id with resume true / without / refuses) or not; each later one advertises SM or not and answers <resume/> with resumed(same id) / resumed(other id) / <failed/> (item-not-found) / unexpected element / close; inbound and held outbound stanzas exist before each loss; non-trivial = at least one <resume/> was sent; distinct = distinct (scenario hash, schedule hash)",
-		Real: []string{"Session.resume / NewSession (reuse of the previous session)", "EnableStreamManagement", "Client.Connect / Resume", "SM state (id, inbound count, held queue)"},
-		Stub: []string{"TCP (simnet) with cuts", "XMPP server (scripted model)", "clock (synctest)", "goroutine scheduling (token scheduler)"},
-		Run:  runC11,
+		ID:    "C11",
+		Rule:  "scenario = a history of 2-5 connections on one client (Connect, then Resume/Connect after each loss): the first enables SM (server grants an id with resume true / without / refuses) or not; each later one advertises SM or not and answers <resume/> with resumed(same id) / resumed(other id) / <failed/> (item-not-found) / unexpected element / close; inbound and held outbound stanzas exist before each loss; non-trivial = at least one <resume/> was sent; distinct = distinct (scenario hash, schedule hash)",
+		Real:  []string{"Session.resume / NewSession (reuse of the previous session)", "EnableStreamManagement", "Client.Connect / Resume", "SM state (id, inbound count, held queue)"},
+		Stub:  []string{"TCP (simnet) with cuts", "XMPP server (scripted model)", "clock (synctest)", "goroutine scheduling (token scheduler)"},
+		Run:   runC11,
+		Reach: []string{"c11.resumed", "c11.refused", "c11.acknowledged_then_more_sent"},
 	})
 }
 
